@@ -125,3 +125,50 @@ func H_C08(t, w int) {
 	}
 	vReach("end")
 }
+
+// H_C08_at: the same decomposition for a first line that starts at offset k
+// and arrives in two pieces (every cut, chosen symbolically).
+func H_C08_at(t, w, k int) {
+	line := vTpl(t, w)
+	junk := vBytes(2)
+	buf := vPad(k, junk, line)
+	var fl PFLine
+	c := 1 + vChoice(len(line)-1)
+	o, e := ParseFLine(buf[:k+c], k, &fl)
+	vObs("o1", o)
+	vObs("e1", int(e))
+	if e != ErrHdrMoreBytes {
+		vReach("early")
+		return
+	}
+	o, e = ParseFLine(buf, o, &fl)
+	shape, f, end := refFLine(line)
+	vObs("o", o)
+	vObs("e", int(e))
+	vObs("shape", shape)
+	switch shape {
+	case 2:
+		vAssert("reply-accepted", e == 0 && o == k+end)
+		if e == 0 {
+			vAssert("reply-fields", pfIs(fl.Version, k+f[0], k+f[1]) && pfIs(fl.StatusCode, k+f[2], k+f[3]) && pfIs(fl.Reason, k+f[4], k+f[5]) && fl.Method.Len == 0 && fl.URI.Len == 0)
+			st := int(line[8]-'0')*100 + int(line[9]-'0')*10 + int(line[10]-'0')
+			vAssert("reply-status", int(fl.Status) == st)
+			vAssert("reply-is-reply", !fl.Request())
+		}
+		vReach("reply")
+	case 1:
+		vAssert("request-accepted", e == 0 && o == k+end)
+		if e == 0 {
+			vAssert("request-fields", pfIs(fl.Method, k+f[0], k+f[1]) && pfIs(fl.URI, k+f[2], k+f[3]) && pfIs(fl.Version, k+f[4], k+f[5]) && fl.StatusCode.Len == 0)
+			vAssert("request-is-request", fl.Request() && fl.Status == 0)
+			vAssert("request-method-no", int(fl.MethodNo) == refMethod(line[f[0]:f[1]]))
+		}
+		vReach("request")
+	case 0:
+		vAssert("malformed-not-accepted", e != 0)
+		vReach("malformed")
+	default:
+		vReach("incomplete")
+	}
+	vReach("end")
+}
